@@ -16,5 +16,19 @@ func init() {
 		c.Add(&Job{Pkg: utilPkg, Func: "VerifC19HostNet", MustCover: []string{"host network"}})
 		c.Add(&Job{Pkg: utilPkg, Func: "VerifC19ContainsV4", MustCover: []string{"contains reserved"}})
 		c.Add(&Job{Pkg: utilPkg, Func: "VerifC19MonotoneV4", MustCover: []string{"supernet of intersecting"}, Tune: merge})
+		// the lints report accordingly: arbitrary certificate, the two util predicates uninterpreted (plumbing);
+		// plus a replayable variant with common names from a concrete pool and the real predicates
+		c.Assume("lint-level jobs: util.IsIANAReserved / IntersectsIANAReserved and net.ParseIP are uninterpreted functions of their arguments in the symbolic variant (their own laws are the jobs above); lists <= 2")
+		ufs := func(cf *Config) {
+			cf.UF["github.com/zmap/zlint/v3/util.IsIANAReserved"] = true
+			cf.UF["github.com/zmap/zlint/v3/util.IntersectsIANAReserved"] = true
+			cf.ListBound = 2
+			cf.AutoUF = true
+		}
+		c.Add(&Job{Label: "lint/e_subject_contains_reserved_ip", Pkg: cabfBRPkg, Func: "VerifC19SubjectIPLint", MustCover: []string{"reserved address in the common name", "no reserved address in the common name"}, Tune: ufs})
+		c.Add(&Job{Label: "lint/e_subject_contains_reserved_ip/pool", Pkg: cabfBRPkg, Func: "VerifC19SubjectIPLint", MustCover: []string{"reserved address in the common name", "no reserved address in the common name"},
+			Tune: func(cf *Config) { cf.Bounds["param:pool"] = 1; cf.AutoUF = true }})
+		c.Add(&Job{Label: "lint/e_ext_san_contains_reserved_ip", Pkg: cabfBRPkg, Func: "VerifC19SANIPLint", MustCover: []string{"reserved SAN address", "no reserved SAN address"}, Tune: ufs})
+		c.Add(&Job{Label: "lint/e_ext_nc_intersects_reserved_ip", Pkg: cabfBRPkg, Func: "VerifC19NCLint", MustCover: []string{"intersecting constraint", "no intersecting constraint"}, Tune: ufs})
 	}
 }
